@@ -6,7 +6,7 @@ read, `self.__class__` records the constructor arguments):
       axes and tensor ranks 0-2; energies, smoothers, rank, titles, declared transformations propagated; 0 / None / VoidResult neutral;
       different energy grids or smoothers are refused; transform uses the declared TR / inversion transforms in the right slots and
       distributes over addition (with the real PointSymmetry.transform_tensor on a symbolic operation).
-  VoidResult.*    x+Void = x, Void+x = x, Void-x = (-1)x, Void*c = Void/c = Void, transform(Void) = Void.
+  VoidResult.*    x+Void = x and x-Void = x for every result class (energy-, band-resolved, dictionary), Void+x = x, Void-x = (-1)x, Void*c = Void/c = Void, transform(Void) = Void.
   ResultDict.__add__, __mul__, __truediv__, __sub__, transform   key-wise; 0 / None neutral.
   K__Result.__add__, add, __mul__, __sub__, transform   `+` is CONCATENATION along k (disjoint k supports: this is what the callers rely on),
       `add`, `-` and `*` are element-wise.  Stated openly: K__Result.__truediv__ returns an unscaled copy (group averaging of tabulated
@@ -46,7 +46,11 @@ def _eq(A, B):
 
 
 class Void:
-    pass
+    """stands for VoidResult where the extracted code only tests isinstance(other, VoidResult); scaling it gives the void again
+    (VoidResult.__mul__ / Result.__rmul__, obligations of the 'VoidResult + ResultDict' unit)"""
+    def __mul__(self, c):
+        return self
+    __rmul__ = __mul__
 
 
 class Made:
@@ -205,7 +209,7 @@ def _void_dict(U):
         __mul__ = lambda s_, c: dmul(s_, c)
         __rmul__ = lambda s_, c: dmul(s_, c)
         __add__ = lambda s_, o: dadd(s_, o)
-    dg = dict(np=rnp, ResultDict=RD)
+    dg = dict(np=rnp, ResultDict=RD, VoidResult=Void)
     dmul = U.fn(FD, "ResultDict.__mul__", globs=dg, model=False)
     dadd = U.fn(FD, "ResultDict.__add__", globs=dg, model=False)
     ddiv = U.fn(FD, "ResultDict.__truediv__", globs=dg, model=False)
@@ -224,6 +228,14 @@ def _void_dict(U):
         s_ = dadd(a, b)
         U.ensure("ResultDict +: key-wise", set(s_.results) == {"p", "q"} and _valid(s_.results["p"].t == sreal("ap") + sreal("bp")) and _valid(s_.results["q"].t == sreal("aq") + sreal("bq")))
         U.ensure("ResultDict: 0 and None neutral", dadd(a, 0) is a and dadd(a, None) is a)
+
+        def same(r_):
+            return set(r_.results) == {"p", "q"} and _valid(r_.results["p"].t == sreal("ap")) and _valid(r_.results["q"].t == sreal("aq"))
+        try:                     # the void offers nothing but scaling: code that reaches into it (other.results) fails natively with AttributeError too
+            okv = same(dadd(a, Void())) and same(dsub(a, Void()))
+        except AttributeError:
+            okv = False
+        U.ensure("ResultDict: the void result is neutral on the right as well (x + Void == x, x - Void == x)", okv)
         m = dmul(a, 2.0)
         U.ensure("ResultDict *: key-wise scaling", _valid(m.results["p"].t == sreal("ap") * 2) and _valid(m.results["q"].t == sreal("aq") * 2) and m.save_mode == {"bin"})
         d = ddiv(a, 4.0)
@@ -239,7 +251,7 @@ def _void_dict(U):
 def _kres(U):
     import abc
     sh = Shim()
-    g = dict(np=sh, abc=abc, itertools=itertools, transform_from_dict=None, print=lambda *a, **k: None)
+    g = dict(np=sh, abc=abc, itertools=itertools, transform_from_dict=None, print=lambda *a, **k: None, VoidResult=Void)
     Base = type("Result", (), {})
     KR = U.klass(FK, "K__Result", globs=g, bases=(Base,), only=("__init__", "fit", "data", "nk", "__add__", "add", "__mul__", "__sub__", "__truediv__"))
     KB = U.klass(FK, "KBandResult", globs=g, bases=(KR,), only=("get_rank", "fit", "nband"))
@@ -266,6 +278,13 @@ def _kres(U):
         r = a + b
         U.ensure("K__Result +: (a+b) = a's k-points then b's; transformations, rank and other properties kept",
                  _eq(r.data, rnp.vstack([A, B])) and r.transformTR == "TR" and r.transformInv == "INV" and r.rank == 1 and r.other_properties == {"c": 1})
+        a, A = blocks("a", layout)
+        try:                     # as above: reaching into the void (other.nband, other.transformTR) is an AttributeError natively
+            rv, sv = a + Void(), a - Void()
+            okv = _eq(rv.data, A) and _eq(sv.data, A) and rv.transformTR == "TR" and sv.transformInv == "INV"
+        except AttributeError:
+            okv = False
+        U.ensure("K__Result: the void result is neutral on the right as well (x + Void == x, x - Void == x)", okv)
         a, A = blocks("a", layout)
         m = a * 3.0
         U.ensure("K__Result *: every element scaled (all blocks)", m.nk == sum(layout) and _eq(m.data, A * 3.0))
@@ -329,8 +348,27 @@ def _real_save(rng, n):
         cases += 1
         if bad:
             fails.append(dict(input=dict(case=t, n_energy_axes=nE, rank=rank, complex=cplx), clause="from_npz(save(x)) == x", failed=bad))
+    # native: the real VoidResult is neutral on either side of every result class
+    from wannierberri.result.result import VoidResult
+    from wannierberri.result.kbandresult import KBandResult
+    from wannierberri.result.resultdict import ResultDict
+    rs = rnp.random.RandomState(5)
+    er = EnergyResult(rnp.linspace(0, 1, 4), rs.rand(4, 3), transformTR=transform_odd, transformInv=transform_ident, rank=1)
+    objs = dict(EnergyResult=(er, lambda r_: r_.data), KBandResult=(KBandResult(rs.rand(2, 3, 3), transformTR=transform_odd, transformInv=transform_ident), lambda r_: r_.data),
+                ResultDict=(ResultDict({"a": er}), lambda r_: r_.results["a"].data))
+    for nm, (x, get) in objs.items():
+        bad = []
+        for label, op in (("Void + x", lambda: VoidResult() + x), ("x + Void", lambda: x + VoidResult()), ("x - Void", lambda: x - VoidResult())):
+            try:
+                if not rnp.array_equal(get(op()), get(x)):
+                    bad.append(label + ": differs from x")
+            except Exception as e:
+                bad.append("%s raises %s: %s" % (label, type(e).__name__, e))
+        cases += 1
+        if bad:
+            fails.append(dict(input=dict(result_class=nm), clause="the void result is neutral", failed=bad))
     return dict(cases=cases, failures=fails, distinct=cases)
 
 
 Unit("C16", "EnergyResult save/load [real files]", concrete=_real_save,
-     bounded_desc="EnergyResult with 1-2 energy axes, rank 0-2, real/complex data, every pre-defined Transform incl. conj/swap_axes/transpose, multi-line comment: save -> from_npz compared exactly")
+     bounded_desc="EnergyResult with 1-2 energy axes, rank 0-2, real/complex data, every pre-defined Transform incl. conj/swap_axes/transpose, multi-line comment: save -> from_npz compared exactly; the real VoidResult added to / subtracted from the three result classes")
